@@ -2,10 +2,12 @@
 Oracle: strict decode of everything written, per destination node 1,2,...,255,1,... in wire order; 0 only while numbering
 is off during connection probing; expectation restarts after a MSG_SYS_RESET on the wire."""
 import hashlib
+import os
 from collections import defaultdict
 
 from .. import gen, model, runner, spec_lowlevel as S
-from ..scen import Scn, call
+from .. import sweep
+from ..scen import Scn, call, up
 from .C01 import bus_lines, ADDRS, normal_start_line
 
 BUDGETED = ['bidib_send_sys_ping', 'bidib_send_feature_get', 'bidib_send_string_get', 'bidib_send_sys_get_sw_version',
@@ -93,13 +95,100 @@ def check_wire(ctx, r, meta):
     if wraps and meta['threads'] >= 2:
         ctx.nontrivial.add(meta['digest'])
 
+# ------------------------------------------------------------------ directed preemption sweep
+SWEEP_FNS = ['bidib_send_sys_enable', 'bidib_send_sys_clock', 'bidib_send_sys_ping', 'bidib_send_sys_get_sw_version']
+
+def gen_sweep(ctx, part, pairs, ks, fn):
+    """One process: for every (A, B) of `pairs` and every k of `ks`, thread 0 is paused at the k-th scheduling point of A (same node),
+    thread 1 then runs B completely. Variants: 'plain' (budget free), 'held' (budget exhausted by unanswered string requests: A and B
+    are deferred and later released by the receiver thread), 'recv' (B is not a call but an answer whose processing makes the
+    receiver thread transmit held messages while A is paused)."""
+    rng = ctx.sub_rng('c05sweep', part)
+    sc = Scn(seed=ctx.seed * 31 + part, perturb=0, watchdog=240000)
+    sc.add('bus mode silent', 'bus brackets 0', 'debug 1', 'start @null 0', 'quiesce')
+    PONG, SWV, STR = model.C('MSG_SYS_PONG'), model.C('MSG_SYS_SW_VERSION'), model.C('MSG_STRING')
+    ans = {'bidib_send_sys_ping': (PONG, b'\x01'), 'bidib_send_sys_get_sw_version': (SWV, b'\x01\x02\x03')}
+    idx = 0
+    sent = 0
+    for (fa, fb, variant, ad) in pairs:
+        for k in ks:
+            def mk(name):
+                nm, ad2, a, data = gen.random_call(rng, ad, names=[name], hot=0.1)
+                return call(nm, *S.tokens(nm, ad, a))
+            pre, post = [], []
+            if variant in ('held', 'recv'):
+                # 30 + 30 bytes of expected answers: nothing with a response fits any more
+                pre = [mk('bidib_send_string_get'), mk('bidib_send_string_get'), 'flush']
+                post = [up(model.build_msg(ad, 0, STR, b'\x00\x00\x00')), up(model.build_msg(ad, 0, STR, b'\x00\x00\x00')), 'quiesce', 'flush', 'quiesce']
+                sent += 2
+            sc.add(*pre)
+            if variant == 'recv':
+                # two held messages; the answer to the first string request lets the receiver transmit them while A is paused
+                sc.add(mk('bidib_send_sys_ping'), mk('bidib_send_sys_get_sw_version'))
+                sent += 2
+                b_lines = [up(model.build_msg(ad, 0, STR, b'\x00\x00\x00')), 'settle']
+                post = post[1:] + [up(model.build_msg(ad, 0, PONG, b'\x01')), up(model.build_msg(ad, 0, SWV, b'\x01\x02\x03')), 'quiesce']
+                sweep.add_two_thread_case(sc, idx, [mk(fa)], b_lines, k, fn, after=('quiesce', 'flush', 'quiesce'))
+                sent += 1
+                fbs = []
+            else:
+                sweep.add_two_thread_case(sc, idx, [mk(fa)], [mk(fb)], k, fn, after=('flush', 'quiesce'))
+                sent += 2
+                fbs = [fb]
+            sc.add(*post)
+            # answer what A and B asked for, so that the budget is free again for the next case
+            # (the library matches an answer against the oldest awaited response only, and the wire order of A and B depends on the schedule)
+            for f in ([fa] + fbs) * 2:
+                if f in ans:
+                    sc.add(up(model.build_msg(ad, 0, ans[f][0], ans[f][1])))
+            sc.add('quiesce', 'flush', 'quiesce')
+            idx += 1
+    sc.add('mark done', 'stop')
+    return sc.text(), {'threads': 2, 'normal': False, 'mix': 'directed-sweep', 'cases': idx, 'sent': sent, 'fn': fn}
+
+def run_sweep(ctx):
+    nodes = [(0, 0, 0), (1, 0, 0), (1, 2, 3)]
+    allpairs = [(a, b, v, nodes[(i + j) % 3]) for i, a in enumerate(SWEEP_FNS) for j, b in enumerate(SWEEP_FNS) for v in ('plain', 'held')]
+    allpairs += [(a, None, 'recv', nodes[i % 3]) for i, a in enumerate(SWEEP_FNS)]
+    jobs = []
+    part = 0
+    kl, kf = (range(1, 13), range(1, 41)) if ctx.quick else (range(1, 15), range(1, 61))
+    sel = allpairs if not ctx.quick else [p for i, p in enumerate(allpairs) if (i + ctx.seed) % 3 == 0 or p[2] == 'recv']
+    for i in range(0, len(sel), 3):
+        for fn, ks in ((False, kl), (True, kf)):
+            text, meta = gen_sweep(ctx, part, sel[i:i + 3], ks, fn)
+            meta['digest'] = hashlib.sha1(text.encode()).hexdigest()[:12]
+            jobs.append(('mon' if part % 2 else 'asan', text, meta))
+            part += 1
+    for fl in ('asan', 'mon'):
+        js = [j for j in jobs if j[0] == fl]
+        res = runner.run_many(fl, [(i, j[1]) for i, j in enumerate(js)], timeout=900)
+        for j, r in zip(js, res):
+            before = ctx.evaluations
+            check_wire(ctx, r, j[2])
+            if ctx.evaluations == before:
+                continue
+            n = sweep.pause_stats(ctx, r.events)
+            onwire = sum(1 for e in r.events if e.get('e') == 'txm')
+            if onwire != j[2]['sent']:
+                ctx.violation('lost-or-duplicated', 'sweep', f'directed sweep submitted {j[2]["sent"]} messages and answered every request; {onwire} are on the wire', r.scenario, r.flavour, j[2])
+            ctx.count('sweep_cases', j[2]['cases'])
+            if n >= 10:
+                ctx.nontrivial.add(j[2]['digest'])
+
 def run(ctx):
     ctx.rule = ('2-16 application threads sending zero-response and budgeted messages to 1-3 nodes (>=300..900 messages per node, so the '
                 '255->1 wrap is crossed), auto-flush 0-3 ms, lock-level perturbation 0-70%, debug and normal mode, asan and tsan flavours. '
-                'non-trivial = distinct scenario with >=2 threads in which at least one node wrapped 255->1')
+                'non-trivial = distinct scenario with >=2 threads in which at least one node wrapped 255->1. Directed sweep: for pairs of send '
+                'functions (data-less / with data, zero-response / budgeted, budget free / exhausted) to one node, thread A is paused at each of its first 12-60 '
+                'scheduling points (lock operations; library function entries) while thread B - or the receiver releasing held messages - runs completely; '
+                'non-trivial there = process in which >= 10 cases really paused')
     ctx.assumptions = ['reference decoder', 'simulated bus answers every request (deferred messages are released by the receiver thread)']
     jobs = []
     n = ctx.n(40, 1000)
+    only = os.environ.get('VERIF_ONLY', '')
+    if only == 'sweep':
+        n = 2
     for k in range(n):
         fl = 'tsan' if k % 2 else 'asan'
         text, meta = gen_scn(ctx, k, fl)
@@ -110,6 +199,8 @@ def run(ctx):
         res = runner.run_many(fl, [(i, j[1]) for i, j in enumerate(js)], timeout=600)
         for j, r in zip(js, res):
             check_wire(ctx, r, j[2])
+    if only != 'stress':
+        run_sweep(ctx)
     ctx.sample({k: v for k, v in jobs[0][2].items()})
     ctx.sample({'scenario_head': jobs[1][1].split('\n')[:12]})
     return ctx.finish(min_eval=10, min_nontrivial=5)
